@@ -38,6 +38,8 @@ import (
 
 const sentinel = "Z-sentinel"
 
+const largeCapacity = 100000
+
 type step struct {
 	Kind string `json:"k"` // E enqueue | OK | PERM | TRANS | RESTART
 	ID   string `json:"id,omitempty"`
@@ -101,14 +103,14 @@ type incarnation struct {
 
 var errStart = errors.New("start failed")
 
-func newIncarnation(st *qstore.Store, consumers int, auto bool) (*incarnation, error) {
+func newIncarnation(st *qstore.Store, consumers int, auto bool, capacity int64) (*incarnation, error) {
 	in := &incarnation{st: st, entered: make(chan *entry, 256)}
 	in.auto.Store(auto)
 	cfg := exporterhelper.NewDefaultQueueConfig()
 	id := qstore.ID
 	cfg.StorageID = &id
 	cfg.NumConsumers = consumers
-	cfg.QueueSize = 100000
+	cfg.QueueSize = capacity
 	rcfg := configretry.NewDefaultBackOffConfig()
 	rcfg.InitialInterval = time.Hour
 	rcfg.MaxInterval = time.Hour
@@ -206,10 +208,10 @@ const enoughLosses = 60
 
 // runScript executes one script on a store that already holds `image`; recovered is the number of
 // requests a fault-free recovery of the image hands off (the model's initial queue length).
-func runScript(known map[string][]byte, image map[string][]byte, recovered int, sc []step, consumers, crashAt int) *runResult {
+func runScript(known map[string][]byte, image map[string][]byte, recovered int, sc []step, consumers, crashAt int, capacity int64) *runResult {
 	r := &runResult{accepted: map[string]bool{}, finalized: map[string]bool{}}
 	st := qstore.New(image, crashAt)
-	in, err := newIncarnation(st, consumers, false)
+	in, err := newIncarnation(st, consumers, false, capacity)
 	r.phase = "start+recovery"
 	if err != nil {
 		r.trace = append(r.trace, "start error: "+err.Error())
@@ -357,7 +359,7 @@ func runScript(known map[string][]byte, image map[string][]byte, recovered int, 
 				break
 			}
 			r.phase = "restart:start+recovery"
-			in2, err := newIncarnation(st, consumers, false)
+			in2, err := newIncarnation(st, consumers, false, capacity)
 			if err != nil {
 				r.trace = append(r.trace, "start error: "+err.Error())
 				r.image, r.ops, r.died = st.Image(), st.Ops(), st.Dead()
@@ -390,7 +392,7 @@ type drainResult struct {
 func drainClean(known map[string][]byte, image map[string][]byte) *drainResult {
 	d := &drainResult{}
 	st := qstore.New(image, -1)
-	in, err := newIncarnation(st, 1, true)
+	in, err := newIncarnation(st, 1, true, largeCapacity) // the judging incarnation always has room (a restart with a larger queue_size)
 	if err != nil {
 		d.why = "start: " + err.Error()
 		return d
@@ -497,6 +499,7 @@ type explorer struct {
 	stride    []int // boundary stride per depth
 	rng       *rand.Rand
 	consumers int
+	capacity  int64 // queue_size of the scripted incarnations: small values make enqueues (and the recovery's re-enqueues) meet a full queue
 	scriptID  string
 	seen      map[string]bool
 	lenDepth  []int
@@ -569,7 +572,7 @@ func (x *explorer) explore(image map[string][]byte, carry map[string]bool, depth
 		}
 		sort.Strings(keys)
 		c.Violation("lost", fmt.Sprintf("accepted, never finalized requests %v are not handed off by a fault-free restart on the image after deaths at boundaries %v (script %q, consumers %d); recovered=%v", lost, path, x.scriptID, x.consumers, d.ids),
-			map[string]any{"script": x.scriptID, "consumers": x.consumers, "boundaries": path, "death_during": phase, "incarnations": hist, "lost": lost, "recovered": d.ids, "index_keys_in_image": keys, "image_keys": len(image)},
+			map[string]any{"script": x.scriptID, "consumers": x.consumers, "queue_size": x.capacity, "boundaries": path, "death_during": phase, "incarnations": hist, "lost": lost, "recovered": d.ids, "index_keys_in_image": keys, "image_keys": len(image)},
 			"death_during", phase, "index_keys", strings.Join(keys, "+"))
 	}
 	if len(lost) > 0 {
@@ -601,7 +604,7 @@ func (x *explorer) explore(image map[string][]byte, carry map[string]bool, depth
 			x.register(s.ID)
 		}
 	}
-	base := runScript(x.known, image, len(d.ids), sc, x.consumers, -1)
+	base := runScript(x.known, image, len(d.ids), sc, x.consumers, -1, x.capacity)
 	c.Observe("incarnation_runs", 1)
 	if base.stuck != "" {
 		c.Note("fault-free run stuck: %s script=%s", base.stuck, scriptString(sc))
@@ -616,7 +619,7 @@ func (x *explorer) explore(image map[string][]byte, carry map[string]bool, depth
 		if stride > 1 && b%stride != (int(x.c.Seed)+depth)%stride && b != base.ops {
 			continue
 		}
-		r := runScript(x.known, image, len(d.ids), sc, x.consumers, b)
+		r := runScript(x.known, image, len(d.ids), sc, x.consumers, b, x.capacity)
 		c.Eval()
 		c.Observe("incarnation_runs", 1)
 		c.Observe("crash_runs", 1)
@@ -688,6 +691,12 @@ func run(c *driver.Ctx) {
 			x.maxDepth = 2
 			x.stride = []int{1, c.N(2, 1), 1}
 			x.lenDepth = []int{0, c.N(4, 6), 3}
+		}
+		x.capacity = largeCapacity
+		if g%3 == 1 {
+			x.capacity = int64(1 + rng.Intn(3))
+			x.scriptID += fmt.Sprintf(" queue_size=%d", x.capacity)
+			c.Observe("scripts_with_small_queue", 1)
 		}
 		c.Observe("scripts", 1)
 		x.explore(map[string][]byte{}, map[string]bool{}, 0, nil, sc, "-", nil)
